@@ -49,6 +49,10 @@ def tla_cfg(sc, status_texts=None):
         i = dict(tgt["identity"])
         i["serial_b"] = p32(i["serial"])
         i.pop("serial")
+        from pycomm3.cip import VENDORS, PRODUCT_TYPES
+        vt, pt = VENDORS.get(i["vendor"]), PRODUCT_TYPES.get(i["product_type"])
+        i["vendor_text"] = {"has": 1 if isinstance(vt, str) else 0, "s": cps(vt) if isinstance(vt, str) else []}
+        i["ptype_text"] = {"has": 1 if isinstance(pt, str) else 0, "s": cps(pt) if isinstance(pt, str) else []}
         i.setdefault("ip", [10, 0, 0, 1])
         i.setdefault("state", 3)
         tgt["identity"] = i
